@@ -272,8 +272,11 @@ class Gen:
         return v
 
     def pad(self):
-        if self.r.random() < 0.55:
+        c = self.r.random()
+        if c < 0.55:
             return 0, 0
+        if c < 0.62:
+            return 8 + self.r.randrange(64), 3        # just below 2^10 .. 2^13 bytes (queue growth boundaries)
         return self.r.choices(range(8), SIZE_W)[0], self.r.randrange(8)
 
     def pick(self, kinds, scope, destructive=False):
@@ -649,7 +652,17 @@ class Gen:
         size, align = self.pad()
         inner = ("clo", self.fresh("nclo"), size, align, [], [] if r.random() < 0.7 else [("deferd", self.wrap_clo([]))])
         self.st("vol_%d" % n)
-        return ("rep", n, [(r.choice(["defer", "deferd", "lazy"]), inner)])
+        out = [("rep", n, [(r.choice(["defer", "deferd", "lazy"]), inner)])]
+        # big captures pushed onto the now non-empty queue: sizes just below the powers of two
+        for _ in range(r.choice([0, 1, 2, 4])):
+            big = ("clo", self.fresh("nclo"), 8 + r.randrange(64), 3, [], [])
+            h = self.pick(["own", "act"], scope)
+            if h is not None and r.random() < 0.4:
+                out.append(("call", h, big))
+            else:
+                out.append((r.choice(["defer", "deferd", "lazy"]), big))
+            self.st("vol_big")
+        return out
 
     def chain(self, length):
         """Closures c1..cL where dropping c_i un-run drops a token whose Drop defers c_(i+1) (F4 has L >= 100)."""
